@@ -1,2 +1,89 @@
-(* Spec/SamSpec.v — specification-level definitions. *)
+(* Spec/SamSpec.v — what property C03 talks about: which records are in the
+   round-trip domain, when two records are the same record, the SAM flag bits. *)
+From Coq Require Import String Permutation.
 From Bio Require Import Base.
+From Bio.Model Require Import Sam.
+
+(* free of TAB, CR, LF *)
+Definition tsv_clean (s : bytes) : Prop := clean [TAB; CR; LF] s.
+Definition tsv_cleanb (s : bytes) : bool := cleanb [TAB; CR; LF] s.
+
+(* strconv's contract for one float, as answered by the oracle [o]:
+   H1  the text written for x parses back to x;
+   H2  that text is non-empty and free of TAB/CR/LF.
+   (A table-backed oracle answers for finitely many floats, so the contract is
+   required of the floats that occur in the record, not of all of F.) *)
+Definition float_ok (o : foracle) (x : F) : Prop :=
+  parseF o (fmtF o x) = Some x /\ fmtF o x <> [] /\ tsv_clean (fmtF o x).
+
+Definition tagval_ok (o : foracle) (v : tagval) : Prop :=
+  match v with
+  | TA b => memb b [TAB; CR; LF] = false
+  | TI z => int64 z
+  | TF x => float_ok o x
+  | TZ s => tsv_clean s
+  | TH h => Forall (fun b => b < 256) h
+  end.
+
+Definition tag_ok (o : foracle) (t : bytes * tagval) : Prop :=
+  clean [COLON; TAB; CR; LF] (fst t) /\ tagval_ok o (snd t).
+
+Definition not_at (s : bytes) : Prop :=
+  match s with c :: _ => c <> 64 | [] => True end.
+
+(* The round-trip domain.  No condition on double quotes (or any other byte
+   outside TAB/CR/LF); empty fields allowed. *)
+Record sam_ok (o : foracle) (r : sam) : Prop := {
+  ok_qname : tsv_clean (s_qname r);
+  ok_qname_at : not_at (s_qname r);
+  ok_rname : tsv_clean (s_rname r);
+  ok_cigar : tsv_clean (s_cigar r);
+  ok_rnext : tsv_clean (s_rnext r);
+  ok_seq : tsv_clean (s_seq r);
+  ok_qual : tsv_clean (s_qual r);
+  ok_flag : int64 (s_flag r);
+  ok_pos : int64 (s_pos r);
+  ok_mapq : int64 (s_mapq r);
+  ok_pnext : int64 (s_pnext r);
+  ok_tlen : int64 (s_tlen r);
+  ok_tags : Forall (tag_ok o) (s_tags r);
+  ok_keys : NoDup (map fst (s_tags r)) }.
+
+(* Same record: the eleven mandatory fields are equal and the tag maps are the
+   same map (unique keys, same bindings; floats are compared by canonical text,
+   so NaN = NaN). *)
+Definition sam_eq (r r' : sam) : Prop :=
+  s_qname r = s_qname r' /\ s_flag r = s_flag r' /\ s_rname r = s_rname r' /\
+  s_pos r = s_pos r' /\ s_mapq r = s_mapq r' /\ s_cigar r = s_cigar r' /\
+  s_rnext r = s_rnext r' /\ s_pnext r = s_pnext r' /\ s_tlen r = s_tlen r' /\
+  s_seq r = s_seq r' /\ s_qual r = s_qual r' /\
+  NoDup (map fst (s_tags r')) /\ Permutation (s_tags r) (s_tags r').
+
+Definition tag_lookup (k : bytes) (m : tagmap) : option tagval := alookup k m.
+
+(* A header line: starts with '@', no LF, does not end in CR (tabs, quotes and
+   everything else allowed). *)
+Definition header_ok (h : bytes) : Prop :=
+  (exists t, h = 64 :: t) /\ ~ In LF h /\ drop_cr h = h.
+
+(* sortedness of the written tags: bytewise order of the tag texts *)
+Definition bytes_le (a b : bytes) : Prop := bcompare a b <> Gt.
+
+(* ---------------------------------------------------------------- *)
+(* The SAM specification's FLAG bits (SAMv1 section 1.4), in order:
+   0x1 .. 0x800.  Names are those of the accessors in flag.go.        *)
+Definition flag_spec_bits : list (string * Z) :=
+  [ ("Multiple"%string, 0%Z);            (* 0x1   template having multiple segments *)
+    ("Each"%string, 1%Z);                (* 0x2   each segment properly aligned *)
+    ("Unmapped"%string, 2%Z);            (* 0x4   segment unmapped *)
+    ("Unmapped2"%string, 3%Z);           (* 0x8   next segment unmapped *)
+    ("ReverseComplement"%string, 4%Z);   (* 0x10  SEQ reverse complemented *)
+    ("ReverseComplement2"%string, 5%Z);  (* 0x20  SEQ of the next segment reverse complemented *)
+    ("First"%string, 6%Z);               (* 0x40  first segment *)
+    ("Last"%string, 7%Z);                (* 0x80  last segment *)
+    ("Secondary"%string, 8%Z);           (* 0x100 secondary alignment *)
+    ("NotPassing"%string, 9%Z);          (* 0x200 not passing filters *)
+    ("Duplicate"%string, 10%Z);          (* 0x400 PCR or optical duplicate *)
+    ("Supplementary"%string, 11%Z) ].    (* 0x800 supplementary alignment *)
+
+Definition flag_spec_names : list string := map fst flag_spec_bits.
